@@ -29,6 +29,8 @@
 //
 //  5. out-of-memory faults (fault.go): one child process per case; RLIMIT_AS makes the mmap of a fresh page fail in the
 //     middle of a defragmentation pass; the process may stop there, or must keep the whole predicate afterwards.
+//     A second family has no pass: Malloc of dry-class and private sizes while every fresh mapping is refused -
+//     a nil result must leave Allocs unchanged and equal to the number of live records (fix de3a7c01).
 //
 // In all streams the property's own predicate is evaluated on the real code independently of the model.
 package main
@@ -2001,7 +2003,7 @@ func main() {
 	r.Extra["boundary_sizes_in_corpus"] = len(bs)
 	r.Assume = []string{
 		"mmap returns zero-filled memory aligned to 1 MiB that overlaps no other mapping (OS contract)",
-		"when the OS refuses memory: inside a defragmentation pass the code panics and the process stops (fail-stop; the model's pass has no abort path — regenerated source fact Gen.MemClasses.defragNoEarlyExit, Props.C20.defrag_pass_has_no_abort_path; the fault stream makes mmap fail inside real passes and requires 'stopped at the fault' or 'survived with the whole predicate intact'); outside a pass Malloc returns nil with Allocs already incremented (seen on the unchanged code: Allocs = live + 1 from then on; the node's callers dereference the nil result at once and stop) — Malloc's failure path is not modelled and not driven",
+		"when the OS refuses memory: inside a defragmentation pass the code panics and the process stops (fail-stop; the model's pass has no abort path — regenerated source fact Gen.MemClasses.defragNoEarlyExit, Props.C20.defrag_pass_has_no_abort_path; the fault stream makes mmap fail inside real passes and requires 'stopped at the fault' or 'survived with the whole predicate intact'); outside a pass Malloc returns nil and nothing else changes — no step of the model (a refused Malloc is the empty step; not a theorem: tested by the fault stream's memory-pressure cases, which refuse Malloc's own shared-page and private mappings and require Allocs unchanged = number live at every nil, then the whole predicate after the limit is lifted; the code used to leave Allocs = live + 1 there, fixed in /repo de3a7c01)",
 		"os.Getpagesize() = 4096 and a 64-bit target (slice header 24 bytes, page_header 32 bytes: recomputed from the struct declaration on every run)",
 		"callers free only pointers returned by Malloc and not yet freed, do not write outside [0,Len) and do not modify the slice header",
 		"DefragAllImproved runs while no Malloc/Free is in progress (as its comment requires)",
@@ -2010,6 +2012,6 @@ func main() {
 		"node wiring: which functions write common.Memory / utxo.Memory_Malloc / utxo.Memory_Free and from where they are reachable is a regenerated source fact (gen_c20/wire.go, syntactic mention graph over client/, lib/utxo/ and every module package in their transitive import closure — lib/chain, lib/btc, lib/script, lib/others/…; function literals count as part of the function they are written in, `x.Name` as a mention of every method called Name; NOT seen: writes through reflection, go:linkname, unsafe pointers or an alias `p := &utxo.Memory_Free` taken in one function and written through in another — taking the address itself counts as a write); the node stream commits blocks through UnspentDB.CommitBlockTxs, not through lib/chain.AcceptBlock; the TextUI / WebUI config handlers are mirrored by the harness (copy CFG + fragment + Reset, save + load + Reset, whole JSON + Reset), not called",
 		"sort.Slice is not stable: the model takes the evacuation order observed on the real allocator and checks it against the selection rule (sorted by used, stop when recordsToFree >= target); theorems hold for every legal order",
 	}
-	r.Finish("corpus: every size-class boundary (slot-1, slot, slot+1 for all classes of the generated table), the private-mapping boundaries and 200 KiB; page-edge traces; random mixed traces; single-class traces; defragmentation scenarios at 5 fragmentation patterns (uniform, whole pages emptied, equal use on every page, at the 12-page threshold, everything freed) each followed by an aftermath and a second pass; 2..16-goroutine phases with barrier checks and defrag; steady-state churn cases (2..4 goroutines sharing 1..3 size classes in free-list mode, the classes walking a permutation of all dense small classes); mode-edge contention cases (2..16 goroutines released together in one class that was put k slots before the end of its bump region / of its free list / dry, 10..17 rounds each); header-counter storms (8..16 goroutines, thousands of Mallocs each with a third freed again, in one dense class so that all of them update one page header); node lives (InitConfig in allocator or Go-heap mode, raw Malloc/Free, UTXO blocks with partial and full spends, large-class waves, config changes of 27 settings in three forms with Memory.UseGoHeap flipped at least once, defrag_utxo ticks); out-of-memory cases (fault.go: one child process each; a fragmented class of 26..44 pages in three shapes, a DefragAllImproved pass during which RLIMIT_AS follows the process size from before the pass or from the k-th relocation on, so that the next fresh page is refused; accepted: the process stops at the fault, or it survives and every predicate holds through traffic, a second pass and the final frees). distinct = distinct traces (name, length, middle op); every trace reaches Malloc and Free on the real allocator",
+	r.Finish("corpus: every size-class boundary (slot-1, slot, slot+1 for all classes of the generated table), the private-mapping boundaries and 200 KiB; page-edge traces; random mixed traces; single-class traces; defragmentation scenarios at 5 fragmentation patterns (uniform, whole pages emptied, equal use on every page, at the 12-page threshold, everything freed) each followed by an aftermath and a second pass; 2..16-goroutine phases with barrier checks and defrag; steady-state churn cases (2..4 goroutines sharing 1..3 size classes in free-list mode, the classes walking a permutation of all dense small classes); mode-edge contention cases (2..16 goroutines released together in one class that was put k slots before the end of its bump region / of its free list / dry, 10..17 rounds each); header-counter storms (8..16 goroutines, thousands of Mallocs each with a third freed again, in one dense class so that all of them update one page header); node lives (InitConfig in allocator or Go-heap mode, raw Malloc/Free, UTXO blocks with partial and full spends, large-class waves, config changes of 27 settings in three forms with Memory.UseGoHeap flipped at least once, defrag_utxo ticks); out-of-memory cases (fault.go: one child process each; a fragmented class of 26..44 pages in three shapes, a DefragAllImproved pass during which RLIMIT_AS follows the process size from before the pass or from the k-th relocation on, so that the next fresh page is refused; accepted: the process stops at the fault, or it survives and every predicate holds through traffic, a second pass and the final frees; and memory-pressure cases without a pass: records in a few classes, RLIMIT_AS just above the process size, 24..47 Mallocs of dry-class sizes — page cache first, then mmap refused —, private sizes of 1..3 MiB — refused —, small private and served sizes; every nil must leave Allocs unchanged and equal to the number of live records; limit lifted, every refused size served, traffic over all classes and private sizes, all freed, the quiescent-point predicate before / after the pressure / after the traffic / at the end). distinct = distinct traces (name, length, middle op); every trace reaches Malloc and Free on the real allocator",
 		"single-threaded traces are compared step by step with the Lean model (address, Len/Cap, counters, complete per-class state incl. free-list order, every link field of the pointer layer, relocate sequence); independently of the model the property predicate is evaluated on the real allocator: fill pattern on free/relocate/end, overlap registry over all live slot ranges, Len/Cap/Data, Allocs = live, slot-by-slot 'live xor on free list', relocate exactly once")
 }
